@@ -26,6 +26,13 @@ impl FixtureDatabase {
         self.analyze_file_internal(file_path, content, false);
     }
 
+    /// Verification hook (off by default): public wrapper around the scan's
+    /// no-cleanup analysis path so an external harness can drive it directly.
+    #[cfg(pytest_language_server_verif)]
+    pub fn verif_analyze_file_fresh(&self, file_path: PathBuf, content: &str) {
+        self.analyze_file_fresh(file_path, content);
+    }
+
     /// Internal file analysis with optional cleanup of previous definitions
     fn analyze_file_internal(&self, file_path: PathBuf, content: &str, cleanup_previous: bool) {
         // Use cached canonical path to avoid repeated filesystem calls
